@@ -1,5 +1,6 @@
 """Histories on the real library: generate, execute on a Universe (vf/cscen.py), record the
 event trace that CachingTrace.tla validates."""
+import os
 import random
 import threading
 
@@ -58,7 +59,7 @@ def gen_history(rng, scn, length=6, p_fault=0.35, p_dry=0.12, p_render=0.08, max
             "maxerr": rng.choice([0, 0, 0, 1, 2, None]),
             "single_as_node": rng.random() < 0.5,
             "fresh_r": rng.random(),
-            "obs": rng.choice([None, "rec", "rec", "composite"]),
+            "obs": rng.choice([None, "rec", "rec", "composite", "shared"]),
             "tp": rng.choice([False, False, False, True, "copy"]),
             "retry": rng.choice([None, None, None, 2, 3]),
             "scw": rng.choice([None, None, 1, 2]),
@@ -218,8 +219,55 @@ def progress_trace(U, scn, notes, notes2, run_events, ok, clean, ngather, nextra
     return {"events": ev}
 
 
+TZ_ZONES = ["UTC", "America/New_York", "Asia/Kolkata", "Europe/London", "Australia/Lord_Howe", "Pacific/Kiritimati",
+            "America/St_Johns", "Asia/Tokyo", "EST5", "Pacific/Pago_Pago"]
+
+
+def gen_files(rng, scn):
+    """File mode: which stores are the library's own file stores (the others stay in memory but report real instants)."""
+    b = []
+    for i in range(scn["N"]):
+        has_store = scn["reg"][i] != "none" or any(sd == i + 1 for sd in scn["side"])
+        b.append(rng.choice(["json", "json", "pickle", "text", None]) if has_store else None)
+    return {"backing": b, "gap": 0.003}
+
+
+def gen_tzmix(rng, N):
+    """How the instants of a history are written down: process time zone, one representation per store, one for fresh_time."""
+    kinds = ["naive", "naive", "utc", "off"]
+    return {"tz": rng.choice(TZ_ZONES), "kinds": [rng.choice(kinds) for _ in range(N)], "fresh": rng.choice(kinds),
+            "off": rng.choice([-720, -480, -210, 0, 330, 345, 840])}
+
+
 def run_history(task):
-    """task: {scn, steps, seed}. Returns {"trace": {scn, events}, "info": {...}}"""
+    """task: {scn, steps, seed[, tzmix]}. Returns {"trace": {scn, events}, "info": {...}}"""
+    if task.get("files") and "root" not in task["files"]:
+        from . import common
+
+        with common.scratch("vf-cfiles-") as root:
+            t2 = dict(task)
+            t2["files"] = dict(task["files"], root=root)
+            t2["scn"] = dict(task["scn"], files=t2["files"])
+            return run_history(t2)
+    mix = task.get("tzmix")
+    if not mix:
+        return _run_history(task)
+    import time as _time
+
+    old = os.environ.get("TZ")
+    os.environ["TZ"] = mix["tz"]
+    _time.tzset()
+    try:
+        return _run_history(task)
+    finally:
+        if old is None:
+            os.environ.pop("TZ", None)
+        else:
+            os.environ["TZ"] = old
+        _time.tzset()
+
+
+def _run_history(task):
     import uberjob
 
     scn = task["scn"]
@@ -230,6 +278,7 @@ def run_history(task):
     except Exception:
         pass
     U = CS.Universe(scn)
+    U.tzmix = task.get("tzmix")
     U.id_of_node = {nd: i for i, nd in U.node.items()}
     for i, nd in U.node.items():
         if type(nd).__name__ == "Call" and hasattr(nd.fn, "__name__") and nd.fn.__name__ == f"f{i}":
@@ -239,6 +288,7 @@ def run_history(task):
     ptraces = []
     info = {"runs": 0, "ok_runs": 0, "failed_runs": 0, "cuts_hit": 0, "unexpected": [], "dry": 0, "renders": 0,
             "threads_leaked": 0, "max_inflight_over": [], "c10": [], "retry_runs": 0}
+    shared = {"cur": ([], []), "lock": threading.Lock()}
     for st in task["steps"]:
         op = st["op"]
         if op == "upd":
@@ -288,6 +338,19 @@ def run_history(task):
             if st["obs"] == "composite":
                 notes2 = []
                 kw["progress"] = (Progress(lambda: make_observer(notes, olock)), Progress(lambda: make_observer(notes2, olock)))
+            elif st["obs"] == "shared":
+                # one composite Progress for the whole history (a Progress is a reusable factory of single-use
+                # observers): every run must give every member an observer of its own
+                notes2 = []
+                if "progress" not in shared:
+                    from uberjob.progress import composite_progress
+
+                    shared["progress"] = composite_progress(
+                        Progress(lambda: make_observer(shared["cur"][0], shared["lock"])),
+                        Progress(lambda: make_observer(shared["cur"][1], shared["lock"])))
+                shared["cur"] = (notes, notes2)
+                shared["lock"] = olock
+                kw["progress"] = shared["progress"]
         tp_calls = []
         if st.get("tp"):
             def tp(plan_, node_):
